@@ -4,10 +4,15 @@ stream(ctx) generates edit histories t0..tk (k <= 4) whose steps are all inside 
 a reordered copy of it (every dict's insertion order reversed), and applies the deltas of consecutive pairs in turn
 to the running result - on the implementation and, inside Coq, on the model (Delta/DeltaChainRunShow.chain_run).
 
-correspondence   per step: [okbb at the model's running value, running result (dict / set order forgotten), error logged]
-                 against [okb_py (the Python mirror of okbb) at the implementation's running value, ...]
+correspondence   per step: [okbb at the model's running value, [running result (dict / set order forgotten), error logged],
+                 running result WITH the insertion order of its dicts (okbb of the later steps depends on it),
+                 okb_allb t_i t_{i+1} (DeltaChainAll.v: okb at every reordering of t_i, the hypothesis of the older
+                 C01_chain_veq_partial) when t_i has at most ALL_LIMIT reorderings]
+                 against [okb_py (the Python mirror of okbb) at the implementation's running value, ..., okb_all_py].
                  okbb is the exact boolean of the hypothesis okb of the theorem (DeltaChainRun.okbb_iff): the hypothesis
-                 chain_okv_run is observed on every generated chain.
+                 chain_okv_run is observed on every generated chain.  The constructor oracle conv is tabulated per step on
+                 the old values of the diff's type changes, on what sits at their paths in the running value, and on every
+                 call okb asks for along its own (positional) pairing.
 direct oracle    the statement of one step of the theorem (C01_roundtrip_veq_base_partial at the running value): whenever the
                  running value is typed-equal to t_i and okb_py holds at the step, the result is typed-equal to t_{i+1} and
                  nothing is logged.  (If okb_py holds at every step so far this is the chain statement.)  Where okb_py
@@ -78,7 +83,50 @@ def okb_conv_pairs(v, t1, t2, acc):
             acc.append((type(t2), v))
 
 
-def step_conv_table(tree, cur, a, b):
+# ---- okb_all (hypothesis of C01_chain_veq_partial): okb at EVERY reordering of t1; mirror of DeltaChainAll.okb_allb ----
+
+def n_reorders(v):
+    """size of DeltaChainAll.reorders v: permutations of every dict's items and every set's members, at every depth"""
+    import math
+    if isinstance(v, (list, tuple)):
+        n = 1
+        for x in v:
+            n *= n_reorders(x)
+        return n
+    if isinstance(v, dict):
+        n = math.factorial(len(v))
+        for x in v.values():
+            n *= n_reorders(x)
+        return n
+    if isinstance(v, (set, frozenset)):
+        return math.factorial(len(v))
+    return 1
+
+
+def dict_reorders(v):
+    """every value equal to v up to the insertion order of its dicts (the iteration order of a Python set cannot be
+    chosen; a table-given conv does not depend on it: DeltaShow.tbl_conv compares renderings with sorted set members)"""
+    import itertools
+    if isinstance(v, (list, tuple)):
+        for combo in itertools.product(*[list(dict_reorders(x)) for x in v]):
+            yield list(combo) if isinstance(v, list) else tuple(combo)
+    elif isinstance(v, dict):
+        keys = list(v)
+        for combo in itertools.product(*[list(dict_reorders(v[k])) for k in keys]):
+            for perm in itertools.permutations(range(len(keys))):
+                yield {keys[i]: combo[i] for i in perm}
+    else:
+        yield v
+
+
+ALL_LIMIT = 48
+
+
+def okb_all_py(a, b, stored):
+    return all(okb_py(w, a, b, stored) for w in dict_reorders(a))
+
+
+def step_conv_table(tree, cur, a, b, with_all=False):
     """conv for one step: the old values of the diff's type changes (to_delta), whatever sits at their paths in the
     CURRENT value (apply calls the constructor on it), and the calls okb asks for along its own pairing"""
     pairs = DC.type_change_pairs(tree)
@@ -92,6 +140,9 @@ def step_conv_table(tree, cur, a, b):
         if DC.in_universe(sub):
             pairs.append((type(lv.t2), sub))
     okb_conv_pairs(cur, a, b, pairs)
+    if with_all:
+        for w in dict_reorders(a):
+            okb_conv_pairs(w, a, b, pairs)
     return DC.conv_table(pairs)
 
 
@@ -210,10 +261,10 @@ def check_omission_rule(ctx, dd, d, always, case):
                                           % (impl, mirror), "case": case, "path": lv.path()})
 
 
-def coq_step(a, b, conv_tbl, rem, add):
-    return "(mkCStep %s %s %s %s %s %s %s)" % (
+def coq_step(a, b, conv_tbl, rem, add, with_all):
+    return "(mkCStep %s %s %s %s %s %s %s %s)" % (
         V.to_coq(a), V.to_coq(b), D.coq_udiff_table(D.udiff_table(a, b)), D.coq_ops_table(D.opcode_table(a, b)),
-        conv_tbl, DC.coq_paths(rem), DC.coq_paths(add))
+        conv_tbl, DC.coq_paths(rem), DC.coq_paths(add), "true" if with_all else "false")
 
 
 def run_chain(ctx, C, vals, start, zip_, thr, always, kinds=(), perturb=None):
@@ -227,10 +278,12 @@ def run_chain(ctx, C, vals, start, zip_, thr, always, kinds=(), perturb=None):
         base = copy.deepcopy(cur)
         pre_ok = V.typed_eq(cur, a)
         okb = okb_py(cur, a, b, always)
+        with_all = n_reorders(a) <= ALL_LIMIT
+        okb_all = okb_all_py(a, b, always) if with_all else None
         try:
             dd = DeepDiff(copy.deepcopy(a), copy.deepcopy(b), **cfg)
             d = Delta(dd, always_include_values=always, mutate=False)
-            conv_tbl = step_conv_table(dd.tree, cur, a, b)
+            conv_tbl = step_conv_table(dd.tree, cur, a, b, with_all)
             with DC.Counting() as cnt:
                 r = cur + d
             raised = None
@@ -259,9 +312,17 @@ def run_chain(ctx, C, vals, start, zip_, thr, always, kinds=(), perturb=None):
                 ctx.fail(dict(case, observed=obs, errors=cnt.n),
                          "edit chain on the running result: step %d does not reproduce t%d (okb holds at the running value)" % (i, i + 1))
         all_okb = all_okb and okb
+        # the hypothesis of the older theorem (okb at every reordering of t_i) against the one about the running value
+        if okb_all is None:
+            ctx.count("chainrun:okb_all:not_evaluated_more_than_%d_reorderings" % ALL_LIMIT)
+        else:
+            ctx.count("chainrun:okb_all:%s:okb_at_running_value:%s" % (okb_all, okb))
+            if okb_all and pre_ok and not okb:
+                ctx.break_("correspondence", {"name": "c01chain okb_all implies okb", "case": case,
+                                              "detail": "okb holds at every reordering of t1 but not at the running value, which is one of them"})
         rem, add = DC.impl_orders(d)
-        steps.append(coq_step(a, b, conv_tbl, rem, add))
-        exp.append([okb, [DC.canon_unordered(r), cnt.n > 0], V.canon(r)])
+        steps.append(coq_step(a, b, conv_tbl, rem, add, with_all))
+        exp.append([okb, [DC.canon_unordered(r), cnt.n > 0], V.canon(r), None if okb_all is None else ["Some", okb_all]])
         cur = r
         if not good:
             # the running value has left the chain: later steps are outside the statement (and outside the model's guards)
